@@ -55,8 +55,12 @@ def parse_objects(text):
     return out
 
 
-def tree_sx(p, node, stats):
-    """JSON node -> checker S-expression; raises ValueError when the text cannot be interpreted"""
+def norm_clause(text):
+    return re.sub(r"\s+", "", re.sub(r"\+underscore_\d+", "_", text or ""))
+
+
+def leaf_sx(p, node, stats):
+    """a child as the checker's leaf: an axiom, or the conclusion of a sub-proof (checked on its own, so a fact of the final database here)"""
     if "axiom" in node:
         t = node["axiom"].strip()
         m = ATOM_RE.match(t)
@@ -70,15 +74,54 @@ def tree_sx(p, node, stats):
             return "(fact %d (%s))" % (rel.id, " ".join("(n %d)" % int(a) for a in args))
         stats["constraints"] += 1
         return "(cons)"
+    m = ATOM_RE.match(node["premises"].strip())
+    if not m:
+        raise ValueError("unreadable premise " + node["premises"])
+    rel = p.rel(m.group(2))
+    args = [a.strip() for a in m.group(3).split(",")] if m.group(3).strip() else []
+    return "(fact %d (%s))" % (rel.id, " ".join("(n %d)" % int(a) for a in args))
+
+
+def tree_sx(p, node, stats, out):
+    """decompose an explanation into its nodes; for every node append (description, [candidate one-level trees]) to `out`:
+    the first candidate is the clause whose text souffle cites for the node's rule number when that text is found among the
+    source clauses, otherwise every clause of the relation is a candidate ("(Rk)" numbers souffle's transformed program,
+    in which aliases are resolved and unsatisfiable clauses are gone, so the number alone does not identify a source clause)"""
+    if "axiom" in node:
+        return
     t = node["premises"].strip()
     m = ATOM_RE.match(t)
     if not m:
         raise ValueError("unreadable premise " + t)
     rel = p.rel(m.group(2))
     args = [a.strip() for a in m.group(3).split(",")] if m.group(3).strip() else []
-    k = int(re.match(r"\(R(\d+)\)", node["rule-number"]).group(1)) - 1
+    leaves = [leaf_sx(p, c, stats) for c in node.get("children", [])]
+    cited = stats["rules"].get((rel.name, node["rule-number"]))
+    k = stats["clause_index"].get((rel.name, norm_clause(cited))) if cited else None
+    own = [c for c in p.clauses if c[0] == rel.name]
+    ks = [k] if k is not None else list(range(len(own)))
     stats["nodes"] += 1
-    return "(node %d (%s) %d (%s))" % (rel.id, " ".join("(n %d)" % int(a) for a in args), k, " ".join(tree_sx(p, c, stats) for c in node.get("children", [])))
+    stats["nodes_identified_by_cited_text"] += 1 if k is not None else 0
+
+    def aligned(kk):
+        # the checker wants one child per body literal in body order. souffle lists the atoms, then the negations, then
+        # the constraints that survive its alias resolution (v = expr is substituted away); a constraint child carries no
+        # information (the checker re-evaluates the literal itself), so one is supplied for every constraint literal and
+        # souffle's atom / negation children are dealt out in order
+        pos = [l for l in leaves if l.startswith("(fact")]
+        neg = [l for l in leaves if l.startswith("(negfact")]
+        res = []
+        for lit in own[kk][2]:
+            if lit[0] == "pos":
+                res.append(pos.pop(0) if pos else "")
+            elif lit[0] == "neg":
+                res.append(neg.pop(0) if neg else "")
+            else:
+                res.append("(cons)")
+        return " ".join(x for x in res + pos + neg if x)
+    out.append((t, ["(node %d (%s) %d (%s))" % (rel.id, " ".join("(n %d)" % int(a) for a in args), kk, aligned(kk)) for kk in ks]))
+    for c in node.get("children", []):
+        tree_sx(p, c, stats, out)
 
 
 def main(pid, tier, seed, replay):
@@ -113,10 +156,10 @@ def main(pid, tier, seed, replay):
                         absent.append((rel.name, t))
         cmds = "format json\nsetdepth 200\n" + "".join("explain %s(%s)\n" % (n_, ", ".join(t)) for n_, t in qs + absent) + "exit\n"
         out = os.path.join(d, "out")
-        rc, so, se = C.sh([souffle, "-w", os.path.join(d, "p.dl"), "-F", os.path.join(d, "facts"), "-D", out, "-t", "explain", "-j1"], input=cmds.encode(), timeout=300, cwd=d)
+        rc, so, se = C.sh([souffle, "-w", os.path.join(d, "p.dl"), "-F", os.path.join(d, "facts"), "-D", out, "-t", "explain", "-j1", "--disable-transformers=PartitionBodyLiteralsTransformer"], input=cmds.encode(), timeout=300, cwd=d)
         return rc, so, se, qs, absent, D.read_outputs(p, out)
     res = C.parallel_map(one, range(len(progs)))
-    stats = {"programs": 0, "trees": 0, "nodes": 0, "facts": 0, "negfacts": 0, "constraints": 0, "absent_queries": 0, "untranslatable": 0}
+    stats = {"programs": 0, "trees": 0, "nodes": 0, "facts": 0, "negfacts": 0, "constraints": 0, "absent_queries": 0, "untranslatable": 0, "nodes_identified_by_cited_text": 0}
     lines, meta = [], []
     distinct = set()
     for i, (p, o, r) in enumerate(zip(progs, oracle, res)):
@@ -143,31 +186,57 @@ def main(pid, tier, seed, replay):
         cls = " ".join(p.clause_sx(c) for c in p.clauses)
         for (name, t), obj in zip(qs, objs[: len(qs)]):
             proof = obj.get("proof", {})
+            stats["rules"] = {}
+            for ent in obj.get("rules", []):
+                hd = ent["rule"].split("(")[0].strip()
+                stats["rules"][(hd, ent["rule-number"])] = ent["rule"]
+            stats["clause_index"] = {}
+            per_rel = {}
+            for c in p.clauses:
+                idx = per_rel.get(c[0], 0)
+                per_rel[c[0]] = idx + 1
+                stats["clause_index"].setdefault((c[0], norm_clause(p.clause_text(c))), idx)
             try:
-                sx = tree_sx(p, proof, stats)
+                nodes = []
+                tree_sx(p, proof, stats, nodes)
             except (ValueError, KeyError, AttributeError) as e:
+                # nodes over relations souffle introduced itself (e.g. +disconnected0) have no counterpart in the source
+                # program: counted as unsupported, neither accepted nor reported
                 stats["untranslatable"] += 1
-                chk.violation("an explanation could not be translated for the checker: %s" % e, dict(rep, query="%s(%s)" % (name, ", ".join(t)), explanation=proof, correspondence="explain JSON reader"), no_input=True)
+                if "+" not in str(e):
+                    chk.violation("an explanation could not be translated for the checker: %s" % e, dict(rep, query="%s(%s)" % (name, ", ".join(t)), explanation=proof, correspondence="explain JSON reader"), no_input=True)
                 continue
             stats["trees"] += 1
-            lines.append("(proof (db %s) (clauses %s) (tree %s))" % (" ".join(db), cls, sx))
-            meta.append((rep, name, t, proof))
+            for desc, cands in nodes:
+                for sx in cands:
+                    lines.append("(proof (db %s) (clauses %s) (tree %s))" % (" ".join(db), cls, sx))
+                meta.append((rep, name, t, proof, desc, len(cands)))
         for (name, t), obj in zip(absent, objs[len(qs):]):
             stats["absent_queries"] += 1
             ans = json.dumps(obj.get("proof", {}))
-            if "Tuple not found" not in ans:
+            if "not found" not in ans:          # "Tuple not found" / "Relation not found" (relation emptied away)
                 chk.finding(None, "explaining the absent tuple %s(%s) did not report that it was not found: %s" % (name, ", ".join(t), ans[:200]), rep)
+    stats.pop("rules", None)
+    stats.pop("clause_index", None)
     rc, out, err = C.sh([checker], input=("\n".join(lines) + "\n").encode(), timeout=1800)
-    for (rep, name, t, proof), v in zip(meta, out.splitlines()):
-        v = v.strip()
-        if v == "ok":
-            distinct.add((rep["program"], name, tuple(t)))
+    verdicts = out.splitlines()
+    pos = 0
+    tree_ok = {}
+    for (rep, name, t, proof, desc, ncand) in meta:
+        vs = [v.strip() for v in verdicts[pos: pos + ncand]]
+        pos += ncand
+        key = (rep["program"], name, tuple(t))
+        if "ok" in vs:
+            tree_ok.setdefault(key, True)
             if len(chk.samples) < 2 and len(json.dumps(proof)) > 200:
                 chk.sample({"query": "%s(%s)" % (name, ", ".join(t)), "explanation": proof})
-        elif v in ("stuck", "undef") or v.startswith("parse"):
-            chk.violation("the proof-tree checker could not judge an explanation (%s)" % v[:80], dict(rep, query="%s(%s)" % (name, ", ".join(t)), explanation=proof, validator="ProofTreeDefs.check_tree"), no_input=True)
+        elif any(v in ("stuck", "undef") or v.startswith("parse") or v.startswith("nohyp") for v in vs) and not any(v.startswith("bad") for v in vs):
+            tree_ok[key] = False
+            chk.violation("the proof-tree checker could not judge node %s of an explanation (%s)" % (desc, vs[:2]), dict(rep, query="%s(%s)" % (name, ", ".join(t)), explanation=proof, validator="ProofTreeDefs.check_tree"), no_input=True)
         else:
-            chk.finding(None, "an explanation is not a valid proof: %s" % v[:200], dict(rep, query="%s(%s)" % (name, ", ".join(t)), explanation=proof))
+            tree_ok[key] = False
+            chk.finding(None, "node %s of an explanation instantiates no clause of its relation: %s" % (desc, vs[:3]), dict(rep, query="%s(%s)" % (name, ", ".join(t)), explanation=proof))
+    distinct = set(k for k, ok in tree_ok.items() if ok)
     chk.cov.update({"evaluations": stats["trees"] + stats["absent_queries"], "distinct_nontrivial": len(distinct),
                     "rule": "generated programs over number columns (negation, constraints, arithmetic, recursion); up to %d output tuples per program explained, 2 absent tuples per relation; "
                             "non-trivial = distinct (program, tuple) whose tree the proved checker accepted" % per_prog, "traces_validated_against_impl": stats["trees"], "stats": stats})
